@@ -438,6 +438,28 @@ def pair_ok(m, f, ptr, ln):
     return rp == rl or (rp[0] == 'arg' and rl[0] == 'arg' and abs(rp[1] - rl[1]) == 1)
 
 
+def wellformed_accepted(run, m, F, E):
+    """R01.4: every well-formed UTF-8 class passes the validator and is copied verbatim by the repairer (so the result of
+    importing well-formed text does not depend on the validation mode)."""
+    validate = c02.find(m, F, '_ST_PRIVATE::validate_utf8(char const*, unsigned long)')
+    cleanup = c02.find(m, F, '_ST_PRIVATE::cleanup_utf8(char*, char const*, unsigned long)')
+    run.need(validate and cleanup, 'validate_utf8 / cleanup_utf8 not found')
+    n = 0
+    nargs = [PtrV('IN'), IntV(64, Lin.atom('n'), 'u')]
+    for cls in utf8_wellformed_classes():
+        for (label, fn, kind, args) in (('validate_utf8', validate, 'validator', nargs), ('cleanup_utf8', cleanup, 'repairer', [PtrV('OUT')] + nargs)):
+            n += 1
+            I = Interp(m, F, E, conv.ConvHooks(1, 1))
+            st = c02.class_state(cls, 1)
+            its = conv.run_iteration(I, fn, st, args, 1, 1)
+            its = [it for it in its if not (it.kind == 'ret' and c02.st_cursor_at_end(it))]
+            bad = c02.judge_decider(I, its, cls, 1, kind, m)
+            if not its:
+                bad = ['no path explored']
+            run.ob('R01.4', label, not bad, bad[0] if bad else 'well-formed sequence accepted unchanged', disc=cls['name'], loc=fn_loc(fn))
+    return n
+
+
 def check(run):
     m = run.module()
     F = run.facts()
@@ -452,6 +474,7 @@ def check(run):
     n += decoder(run, m, F, E, '_ST_PRIVATE::utf32_convert_from_utf16(', c02.utf16_classes(), UTF16_DEC, 2, 'extract_utf16')
     n += latin1(run, m, F, E)
     run.floor('codec value classes', n, 18)
+    run.floor('well-formed classes x (validator, repairer)', wellformed_accepted(run, m, F, E), 18)
     pairs = conv.discover(m, F)
     run.floor('convert loops (flow)', flows(run, m, F, pairs), 12)
     run.floor('forwarding overloads', forwarders(run, m, F), 20)
